@@ -12,7 +12,7 @@
 using namespace Vector::BLF;
 
 static ObjectHeaderBase * make_obj(std::mt19937_64 & rng, int kind, long id, long big) {
-    switch (kind % 5) {
+    switch (kind % 6) {
     case 0: {
         auto * m = new CanMessage;
         m->objectTimeStamp = (uint64_t) id; m->channel = (uint16_t) rng(); m->flags = (uint8_t) rng();
@@ -38,6 +38,16 @@ static ObjectHeaderBase * make_obj(std::mt19937_64 & rng, int kind, long id, lon
     case 3: {
         auto * m = new RestorePointContainer;
         m->objectTimeStamp = (uint64_t) id;
+        return m;
+    }
+    case 5: {
+        // a log container handed to write() as an ordinary object (the factory knows the type): it is counted and
+        // delivered like any other object
+        auto * m = new LogContainer;
+        m->uncompressedFile.resize((size_t) (rng() % 40));
+        for (auto & c : m->uncompressedFile) c = (uint8_t) rng();
+        m->uncompressedFileSize = (uint32_t) m->uncompressedFile.size();
+        m->compress(0, 0);
         return m;
     }
     default: {
@@ -136,7 +146,7 @@ int main(int argc, char ** argv) {
                     f.fileStatistics.measurementStartTime.milliseconds = want.measurementStartTime.milliseconds = (uint16_t) rng();
                     f.fileStatistics.applicationBuild = want.applicationBuild = (uint32_t) rng();
                     for (long i = 1; i <= nobj; i++) {
-                        ObjectHeaderBase * ob = make_obj(rng, (int) (rng() % 5), i, big);
+                        ObjectHeaderBase * ob = make_obj(rng, (int) (rng() % 6), i, big);
                         std::vector<uint8_t> e = kit::encode(*ob);
                         truth.insert(truth.end(), e.begin(), e.end());
                         if (ob->objectType == ObjectType::Unknown115) n115++;
